@@ -265,17 +265,46 @@ def run_case(desc):
                     obs.increment_failed(section=section, scope=sc, exception=e)
 
         render_error = None
+        quiet_bad = None
+        quiet_renders = 0
+        quiet_extra = 0.0
         if not threaded:
             # direct: render after every notification under the observer's own lock, plus once at the end
+            busy_so_far = 0.0
+            running_now = 0
             for k, (th, op, section, sc, arg, dtm) in enumerate(seq):
+                if running_now > 0:
+                    busy_so_far += dtm
                 clock.advance(dtm)
                 emit(op, section, sc, arg, k)
+                running_now += 1 if op == "running" else (-1 if op in ("completed", "failed") else 0)
                 try:
                     with obs._lock:
                         v = obs._do_render()
                     if v is not None:
                         obs._output(v)
                     renders += 1
+                    if k % 9 == 4 and running_now > 0 and render_error is None and quiet_bad is None:
+                        # a rendering in a QUIET period (time passes, calls are running, no notification arrives; the display refreshes because
+                        # its longest update interval is over): the time attributed so far still adds up to the time calls have been running
+                        q_ = [0.5, 61.0, 3.0][k % 3]
+                        clock.advance(q_)
+                        busy_so_far += q_
+                        quiet_extra += q_
+                        old_max = obs._max_update_interval
+                        obs._max_update_interval = 0
+                        try:
+                            with obs._lock:
+                                v = obs._do_render()
+                        finally:
+                            obs._max_update_interval = old_max
+                        if v is not None:
+                            obs._output(v)
+                        quiet_renders += 1
+                        tot_ = sum(ss.weighted_elapsed for m in obs._state.section_scope_mapping.values() for ss in m.values())
+                        if abs(tot_ - busy_so_far) > 1e-6 * max(1.0, busy_so_far):
+                            quiet_bad = (f"rendering in a quiet period after notification {k}: the time attributed to scopes sums to {tot_:.6f}s but calls have been "
+                                         f"running for {busy_so_far:.6f}s (virtual clock)")
                 except BaseException as e:
                     import traceback
 
@@ -351,6 +380,8 @@ def run_case(desc):
             bad = render_error
         elif thread_errors:
             bad = f"the display's update thread died: {thread_errors[0]}"
+        if bad is None and quiet_bad:
+            bad = quiet_bad
         # ---- final rendering reflects final counts
         shown_elapsed = {}
         if bad is None:
@@ -425,6 +456,11 @@ def run_case(desc):
                     if id(w) not in shown:
                         bad = f"IPython: the label for {section}/{sc!r} is not part of the displayed widget tree"
                         break
+                    pw = cache.get(("section", section, "scope", sc, "progress"))
+                    if pw is not None and (pw.max != fin["total"] or pw.value != fin["completed"] + fin["failed"]):
+                        bad = (f"IPython: the progress bar for {section}/{sc!r} shows value={pw.value} of max={pw.max}, final counts are {fin} "
+                               f"(the label next to it reads {got!r})")
+                        break
                     shown_elapsed[(section, ", ".join(str(v) for v in sc))] = w.value.split("; ")[1] if w.value.count("; ") >= 2 else None
         # ---- the time shown per scope is the attributed time, in the documented h/m/s form (direct mode: the last rendering is the last event)
         if bad is None and not threaded:
@@ -443,6 +479,7 @@ def run_case(desc):
             tot = sum(ss.weighted_elapsed for m in obs._state.section_scope_mapping.values() for ss in m.values())
             # threaded mode: the last update of the attribution happened either before or after the final (atomic) advance
             # of the virtual clock, depending on whether a rendering was still due; direct mode renders after it.
+            busy = busy + quiet_extra
             ok = abs(tot - busy) <= 1e-6 * max(1.0, busy) or (threaded and abs(tot - (busy - tail_contrib)) <= 1e-6 * max(1.0, busy))
             if not ok:
                 bad = f"elapsed time attributed to scopes sums to {tot:.6f}s but >= 1 call was running for {busy:.6f}s (virtual clock)"
@@ -462,7 +499,7 @@ def run_case(desc):
     mech = "render"
     if bad and "TypeError" in bad and ("not supported between" in bad):
         mech = "unorderable-scope-sort"
-    res = {"status": "ok", "counters": {"sequences": 1, "notifications": len(seq), f"observer_{kind}": 1, f"mode_{desc['mode']}": 1,
+    res = {"status": "ok", "counters": {"sequences": 1, "quiet_period_renderings": quiet_renders, "notifications": len(seq), f"observer_{kind}": 1, f"mode_{desc['mode']}": 1,
                                          "sequences_with_open_running": int(any(f["running"] > 0 for f in final.values())),
                                          "exceptions_over_cap": int(sum(f["failed"] for f in final.values()) > 128)},
            "sets": {"scope_value_types": sorted({type(v).__name__ for sc in scopes for v in sc})},
